@@ -4,9 +4,9 @@ package main
 
 import (
 	"fmt"
-	"os"
 	"go/token"
 	"go/types"
+	"os"
 	"strings"
 
 	"golang.org/x/tools/go/ssa"
@@ -328,7 +328,9 @@ func ruleGRDorder(w *World, r *Report) {
 			continue
 		}
 		fn := w.SSAFunc(fi.Obj)
-		sorts := findInstrs(fn, func(in ssa.Instruction) bool { return isCallTo(in, "sort", "Slice") || isCallTo(in, "sort", "SliceStable") })
+		sorts := findInstrs(fn, func(in ssa.Instruction) bool {
+			return isCallTo(in, "sort", "Slice") || isCallTo(in, "sort", "SliceStable")
+		})
 		if len(sorts) == 0 {
 			r.Bad("GRD-order", name+":sort", w.Pos(fi.Decl.Pos()), name+" no longer sorts its results by score")
 			continue
